@@ -781,10 +781,12 @@ def single_defs(fnode):
                 for x in ast.walk(t):
                     if isinstance(x, ast.Name) and isinstance(x.ctx, ast.Store):
                         counts[x.id] = counts.get(x.id, 0) + 1
-    for s in fnode.body:
+    for s in ast.walk(fnode):
+        # assigned exactly once in the whole function (wherever): any use that is reached
+        # after the assignment reads that value
         if isinstance(s, ast.Assign) and len(s.targets) == 1 and isinstance(s.targets[0], ast.Name):
             nm = s.targets[0].id
-            if counts.get(nm) == 1:
+            if counts.get(nm) == 1 and nm not in {a.arg for a in fnode.args.args}:
                 defs[nm] = s.value
     return defs
 
